@@ -1,12 +1,12 @@
-(* Obligation C20/normal_cdf_range.  Statement as printed by Coq from Inferno.C20.DistProofs; proof by reference.
+(* Obligation C20/normal_cdf_range.  Statement as printed by Coq from Inferno.C20.DistNormal; proof by reference.
    This file contains nothing else, so the statement cannot be weakened quietly. *)
 From Coq Require Import Reals List ZArith Bool.
 From Coquelicot Require Import Coquelicot.
 From Flocq Require Import Core.Raux.
-From Inferno Require Import Base.Num Base.NumR C20.Model C20.Spec C20.DistProofs.
+From Inferno Require Import Base.Num Base.NumR Gen.Distributions C20.Model C20.Spec C20.DistNormal.
 Import ListNotations.
 Open Scope R_scope.
 Theorem normal_cdf_range : forall (erf : R -> R) (x loc scale : T RN),
   (forall z : R, -1 < erf z < 1) -> 0 < normal_cdf RN erf x loc scale < 1.
-Proof. exact (@Inferno.C20.DistProofs.normal_cdf_range). Qed.
+Proof. exact (@Inferno.C20.DistNormal.normal_cdf_range). Qed.
 Print Assumptions normal_cdf_range.
